@@ -62,6 +62,10 @@ pub struct RtSc {
     pub via_stream: bool,
     pub wplan: StreamPlan,
     pub rplan: StreamPlan,
+    /// edge operations applied after the graph was built and before it is serialised: the
+    /// property quantifies over every graph a history can produce, not only freshly connected ones
+    #[serde(default)]
+    pub after: Vec<crate::model::Op>,
 }
 
 pub struct RoundTrip;
@@ -112,7 +116,17 @@ fn rt_run<F: Flavour>(sc: &RtSc, stats: &mut Stats) -> Option<Violation> {
 
 fn rt_inner<F: Flavour>(sc: &RtSc, stats: &mut Stats) -> Option<Violation> {
     hashseam::set_seed(sc.ser_hash);
-    let (_nodes, g) = build::<F>(&sc.prios, &sc.edges, &sc.insert_order);
+    let (nodes, g) = build::<F>(&sc.prios, &sc.edges, &sc.insert_order);
+    if !sc.after.is_empty() {
+        let w = World::<F> { nodes, graph: None };
+        for op in &sc.after {
+            if w.exec(op).is_failure() {
+                stats.note(format!("an edge operation failed while preparing the graph (decided under C03): {op:?}"));
+                return None;
+            }
+        }
+        stats.inc("graphs_shaped_by_removals_before_serialising");
+    }
     let src = canon::<F>(&g);
     let ser_order: Vec<usize> = F::g_iter(&g).iter().map(|x| x.0).collect();
     let direct = match F::g_ser(&g, sc.wire) {
@@ -249,6 +263,19 @@ pub fn gen_graph(rng: &mut Rng, small: bool, max_n: usize) -> (Vec<u32>, Vec<(us
     let m = if small { rng.below(6) } else { rng.below(3 * n) };
     let mut edges = Vec::new();
     let mut next = 100u64;
+    if rng.chance(1, 5) {
+        // a hub: one node with a long run of edges (self-loops and both directions included)
+        let hub = rng.below(n);
+        for _ in 0..rng.range(6, 40) {
+            next += 1;
+            let other = rng.below(n);
+            match rng.below(6) {
+                0 => edges.push((hub, hub, next)),
+                1 | 2 => edges.push((other, hub, next)),
+                _ => edges.push((hub, other, next)),
+            }
+        }
+    }
     for _ in 0..m {
         next += 1;
         let r = rng.below(10);
@@ -320,6 +347,32 @@ impl Engine for RoundTrip {
                 }
             }
         }
+        let mut after = Vec::new();
+        if !edges.is_empty() && rng.chance(1, 3) {
+            let mut next = 10_000u64;
+            for _ in 0..rng.range(1, 6) {
+                let (u, v, _) = edges[rng.below(edges.len())];
+                let h = crate::model::Prov::Own;
+                after.push(match rng.below(10) {
+                    0..=4 => {
+                        if rng.coin() {
+                            crate::model::Op::Disconnect { u, k: v, h }
+                        } else {
+                            crate::model::Op::Disconnect { u: v, k: u, h }
+                        }
+                    }
+                    5 => crate::model::Op::Isolate { u, h },
+                    6 | 7 => {
+                        next += 1;
+                        crate::model::Op::Connect { u: v, v: u, e: next, h }
+                    }
+                    _ => {
+                        next += 1;
+                        crate::model::Op::TryConnect { u, v: rng.below(prios.len()), e: next, h }
+                    }
+                });
+            }
+        }
         RtSc {
             flavour,
             prios,
@@ -331,6 +384,7 @@ impl Engine for RoundTrip {
             via_stream,
             wplan,
             rplan,
+            after,
         }
     }
 
@@ -368,12 +422,18 @@ impl Engine for RoundTrip {
                 out.push(c);
             }
         }
+        for a in gen::shrink_vec(&sc.after, 20) {
+            let mut c = sc.clone();
+            c.after = a;
+            out.push(c);
+        }
         for k in (0..sc.prios.len()).rev() {
             if sc.prios.len() > 1 {
-                if let Some(edges) = gen::remap_edges(&sc.edges, k) {
+                if let (Some(edges), Some(after)) = (gen::remap_edges(&sc.edges, k), gen::remap_ops(&sc.after, k)) {
                     let mut c = sc.clone();
                     c.prios.remove(k);
                     c.edges = edges;
+                    c.after = after;
                     c.insert_order.retain(|x| *x != k);
                     for x in c.insert_order.iter_mut() {
                         if *x > k {
@@ -394,7 +454,7 @@ impl Engine for RoundTrip {
 
     fn size(&self, sc: &RtSc) -> usize {
         let plan = |p: &StreamPlan| p.chunks.len() + p.interrupt_every.is_some() as usize + p.is_hard() as usize * 2;
-        sc.edges.len() * 4 + sc.prios.len() * 2 + sc.via_stream as usize * 3 + plan(&sc.wplan) + plan(&sc.rplan)
+        sc.edges.len() * 4 + sc.prios.len() * 2 + sc.via_stream as usize * 3 + plan(&sc.wplan) + plan(&sc.rplan) + sc.after.len() * 4
     }
 }
 
@@ -846,6 +906,20 @@ impl Engine for Untrusted {
                 let a = structural[rng.below(structural.len())].clone();
                 let b = structural[rng.below(structural.len())].clone();
                 mutations.push(Mutation::Both(Box::new(a), Box::new(b)));
+            }
+        }
+        // enumerated: at every offset, byte values that are structurally meaningful in the format
+        let interesting: &[u8] = match wire {
+            Wire::Cbor => &[0x00, 0x17, 0x18, 0x1b, 0x3b, 0x5b, 0x7b, 0x80, 0x9a, 0x9b, 0x9f, 0xbb, 0xbf, 0xf6, 0xff],
+            Wire::Json => b"[],\"-9e{}: ",
+        };
+        if base.len() <= 120 {
+            for at in 0..base.len() {
+                for v in interesting {
+                    if base[at] != *v {
+                        mutations.push(Mutation::ByteSet { at, val: *v });
+                    }
+                }
             }
         }
         // seeded: byte-level damage
